@@ -149,17 +149,17 @@ var Properties = map[string]PropDef{
 	},
 	"C04": {
 		ID: "C04", AssertPrefix: "C04.",
-		Bounds:      "one transition step of one process in polarised asynchronous mode: 14 form/side combinations (send, receive, select, case with 2 branches, close, wait, cast, shift, cut, print) x every incoming data rule (SND..BRA) x labels over {l,m,n}; the duplication step for 2 providers over 3 body kinds; the call step for 4 provider-passing conventions",
+		Bounds:      "one transition step of one process in polarised asynchronous mode: 14 form/side combinations (send, receive, select, case with 2 branches, close, wait, cast, shift, cut, print) x every incoming data rule (SND..BRA) x labels over {l,m,n}; the duplication step for 2 providers over 3 body kinds; positive forward relaying each of SND/CLS/SEL/CST, negative forward, split and drop; the call step for 4 provider-passing conventions",
 		Assumptions: []string{"channels are FIFO queues of the capacity CreateFreshChannel asks for; a spawned goroutine runs after the step (run-to-completion)", "continuations are probes that record the process state they are resumed in and the substitutions applied to them", "context.Background() stands for the run's context (cancellation is outside the step claims); heartbeat channel given capacity 4096; logging off"},
-		Outside:     "PARTIAL: whole runs, orders across processes, causal order of prints, recursion; forward / split / drop steps, control messages (FWD, GC) at receivers, the non-polarised transition functions",
-		Harnesses:   []HarnessDef{{Name: "process.ZZC04Step"}, {Name: "process.ZZC04Dup"}, {Name: "process.ZZC13CallCopies"}},
+		Outside:     "PARTIAL: whole runs, orders across processes, causal order of prints, recursion; control messages (FWD, GC) arriving at receivers, droppable positive forwards, the non-polarised transition functions",
+		Harnesses:   []HarnessDef{{Name: "process.ZZC04Step"}, {Name: "process.ZZC04Dup"}, {Name: "process.ZZC04Forward"}, {Name: "process.ZZC13CallCopies"}},
 	},
 	"C01": {
 		ID: "C01", AssertPrefix: "C01.",
-		Bounds:      "one principal cut: channel type A of depth<=1 over K<=1 type names (quick K=0, thorough K=1), provider form P among 7, client form Q among 7, both accepted by the real typecheckForm (probes accepting), labels over {l,m,n}; executed in polarised asynchronous and synchronous mode",
+		Bounds:      "one principal cut: channel type A of depth<=1 over K<=1 type names (quick K=0, thorough K=1), provider form P among 7, client form Q among 7, both accepted by the real typecheckForm (probes accepting), labels over {l,m,n}; executed in polarised asynchronous and synchronous mode; the same cut with one forward `fwd self c` between the two sides, typed by the real forward rule (asynchronous mode), which also exercises the FWD control message at a receiving provider",
 		Assumptions: []string{"the hypothesis is the real typechecker's verdict (vn.Assume(accepted)); the forms are then rebuilt over initialised channels and run on the engine's goroutine/channel model", "run-to-completion scheduling: the receiver blocks, the sender runs, the receiver resumes"},
-		Outside:     "PARTIAL: closed programs with more than one cut, all schedules, GOMAXPROCS, monitor, the non-polarised mode, forwards / duplication / drop between the two sides",
-		Harnesses:   []HarnessDef{{Name: "process.ZZC01Cut", Quick: map[string]int{"K": 0}, Thorough: map[string]int{"K": 1}}},
+		Outside:     "PARTIAL: closed programs with more than one cut, all schedules, GOMAXPROCS, monitor, the non-polarised mode, more than one forward, duplication / drop between the two sides",
+		Harnesses:   []HarnessDef{{Name: "process.ZZC01Cut", Quick: map[string]int{"K": 0}, Thorough: map[string]int{"K": 1}}, {Name: "process.ZZC01CutFwd", Quick: map[string]int{"K": 0, "D": 1}, Thorough: map[string]int{"K": 1}}},
 	},
 	"C13": {
 		ID: "C13", AssertPrefix: "C13.", RaceReplay: true,
@@ -169,13 +169,14 @@ var Properties = map[string]PropDef{
 		Harnesses:   []HarnessDef{{Name: "process.ZZC13Counters"}, {Name: "process.ZZC13CallCopies"}},
 	},
 	"C19": {
-		ID: "C19", AssertPrefix: "C19.",
-		Bounds:      "histories of length 2 of sequential kernels: ParseString on a text of <=2 runes after a text of <=1 rune (thorough <=3 after <=2); Typecheck on a program built from 5 defect switches after another such program (with its worker drained)",
-		Assumptions: []string{"every path of every harness of every check additionally fails (GLOBALWRITE, reported as inconclusive) on a store to a package-level variable of the Grits packages after init"},
+		ID: "C19", AssertPrefix: "C19.", ReinitGlobals: true,
+		Bounds:      "histories of length 2 of sequential kernels: ParseString on a text of <=2 runes after a text of <=1 rune (thorough <=3 after <=2); Typecheck on a program built from 5 defect switches after another such program (with its worker drained); EqualType over an arbitrary environment of 2 names after a query over a different environment with the same names",
+		Assumptions: []string{"in this check package-level state of the Grits packages may be written by the code under test and is rebuilt (package init re-run) at the start of every symbolic path, so a leak shows up as a changed result of the second run; in every other check a store to package-level state after init ends the path as GLOBALWRITE (inconclusive)"},
 		Outside:     "PARTIAL: executing programs (leftover goroutines, channels, timers of finished runs), the web server and benchmark drivers, histories longer than 2",
 		Harnesses: []HarnessDef{
 			{Name: "parser.ZZC19ParseTwice", Quick: map[string]int{"N1": 1, "N2": 2}, Thorough: map[string]int{"N1": 2, "N2": 2}, Depth: 100, Loop: 100, MaxPaths: 3000000},
 			{Name: "process.ZZC19TypecheckTwice"},
+			{Name: "types.ZZC19EqualAfterHistory", Quick: map[string]int{"K": 2, "D": 0}, Thorough: map[string]int{"K": 2, "D": 1}, Depth: 200},
 		},
 	},
 	"C06": {
